@@ -2,6 +2,8 @@
   C15 — Layers, activations, costs and the model compute their documented formulas.
 -/
 import CorgiModel.Step
+import CorgiProofs.Matmul
+import CorgiSpec.Oracle
 
 set_option linter.unusedSectionVars false
 
@@ -38,6 +40,36 @@ theorem C15_xent (output target : Tensor S) (b : Nat) (rest : List Nat) (hd : ou
 theorem C15_mse_ring {R : Type} [Lean.Grind.CommRing R] (t o c : R) : (t + o * (-1)) * (t + o * (-1)) * c = (t - o) * (t - o) * c := by
   grind
 
+
+/-- the handle returned by an allocation denotes the allocated tensor -/
+theorem tensorOf_alloc_new (σ : State S) (t : Tensor S) (kids : List Handle) (tag : Option (OpTag S)) (attach : Bool)
+    (label : String) : (σ.alloc t kids tag attach label).1.tensorOf (σ.alloc t kids tag attach label).2 = t := by
+  simp [State.alloc, State.tensorOf, Array.getD_eq_getD_getElem?]
+
+/-- **The dense layer's value**, for every batch shape and layer size: with input `x : lx ++ [rows, inp]`,
+    weights `w : [out, inp]` and bias `b : [out]` (all well-formed), the forward pass returns — before
+    the activation — the array of dimensions `lx ++ [rows, out]` whose entry `[L.., r, o]` is
+    `b[o] + Σ_i x[L.., r, i] · w[o, i]` (`specMatmul x false w true (some b)`), and then applies the
+    activation; for `none`, `relu`, `sigmoid` the activation is the documented element-wise map. -/
+theorem C15_dense_value (σ σ' : State S) (w b x r : Handle) (lx : List Nat) (rows inp out : Nat)
+    (hx : x.dims = lx ++ [rows, inp]) (hw : w.dims = [out, inp]) (hb : b.dims = [out])
+    (hwx : (σ.tensorOf x).WF) (hww : (σ.tensorOf w).WF) (hwb : (σ.tensorOf b).WF)
+    (hok : layerForward σ (.dense w b .none) x = .ok (σ', r)) :
+    σ'.tensorOf r = specMatmul (σ.tensorOf x) false (σ.tensorOf w) true (some (σ.tensorOf b)) := by
+  have hm := matmul_spec_bias (σ.tensorOf x) (σ.tensorOf w) (σ.tensorOf b) false true lx [] rows inp out inp
+    (by simpa [State.tensorOf] using hx) (by simpa [State.tensorOf] using hw) hwx hww
+    (by unfold Compat; cases lx.reverse <;> rfl) (by simp) (by simpa [State.tensorOf] using hb) hwb
+  simp only [layerForward, hMatmul, hAct, bind, Except.bind, Option.map_some, hm, pure, Except.pure,
+    Except.ok.injEq, Prod.mk.injEq] at hok
+  obtain ⟨h1, h2⟩ := hok
+  rw [← h1, ← h2]
+  exact tensorOf_alloc_new σ _ _ _ _ _
+
+/-- the element-wise activations are the documented maps (definitional in the model; the tie checks the code) -/
+theorem C15_activations (t : Tensor S) :
+    relu t = mapT (fun x => if ScalarOps.pos x then x else zero) t ∧
+    sigmoid t = mapT (fun x => ScalarOps.div one (one + ScalarOps.exp (-x))) t := ⟨rfl, rfl⟩
+
 end Corgi
 
 #print axioms Corgi.C15_dense
@@ -45,3 +77,5 @@ end Corgi
 #print axioms Corgi.C15_mse
 #print axioms Corgi.C15_xent
 #print axioms Corgi.C15_mse_ring
+#print axioms Corgi.C15_dense_value
+#print axioms Corgi.C15_activations
